@@ -374,7 +374,8 @@ fn describe_idx(idx: usize, sizes: &[usize]) -> (String, usize) {
     let op = OPS[idx / sizes.len()];
     let n = sizes[idx % sizes.len()];
     let slow = op.contains("pretty-ser-doc") || op.contains("pretty-ser-list") || op.contains("pretty-ser-graphs") || op == "sparql-graph-var" || op.starts_with("sparql-bgp-join");
-    (op.to_string(), if slow { (n / 10).max(50) } else { n })
+    // (capped: 2,000 elements already take them tens of seconds in a dev build)
+    (op.to_string(), if slow { (n / 10).clamp(50, 2000) } else { n })
 }
 
 pub fn main(args: &[String]) {
